@@ -936,7 +936,7 @@ fn check_vt(r: &mut Report, seed: u64, idx: u64, run: &CaseRun) {
     if any_failure {
         r.nontrivial(&sig_calls);
     }
-    if r.wants_sample() && any_failure && batches.len() >= 2 && idx % 97 == 3 {
+    if r.samples.len() < 3 && any_failure && batches.len() >= 2 && idx % 97 == 3 {
         r.sample(case);
     }
 }
@@ -1518,7 +1518,7 @@ mod threads {
                 Some(false) => r.inconclusive(format!("ctx cell {}: receiver thread had not joined within the watchdog", cell_sig)),
                 None => {}
             }
-            if r.wants_sample() && round == 0 && matches!(state, State::FullStalled) && ctx != Ctx::PlainThread {
+            if r.samples.len() < 4 && round == 0 && matches!(state, State::FullStalled) && ctx != Ctx::PlainThread {
                 let ret = format!("{:?}", out.ret);
                 let el = out.elapsed;
                 r.sample(move || json!({"cell": case, "returned": ret, "elapsed_ms": el.as_secs_f64() * 1000.0}));
@@ -1623,6 +1623,10 @@ mod threads {
             Some(Ok(())) => {}
         }
         r.observe(&format!("join:{}:joined", rk.name()), 1);
+        if r.samples.is_empty() && i < 4 {
+            let (c2, nd) = (case.clone(), delivered.lock().unwrap().len());
+            r.sample(move || json!({"join": c2, "pending_at_drop": snap.pending_len, "in_batch_at_drop": snap.is_in_batch, "batches_delivered": nd, "overflows": truncated}));
+        }
         r.nontrivial(&("join", rk, cap, fail_every, n_items.min(3), n_flush, stall_first, snap.pending_len.min(2), snap.is_in_batch));
         let seen: HashSet<u64> = delivered.lock().unwrap().iter().flatten().copied().collect();
         r.observe("join:items-delivered", seen.len() as u64);
@@ -1702,7 +1706,7 @@ fn main() {
     // 1. virtual time (delay divisor untouched: the real durations are observed)
     if want("vt") {
         // Miri interprets ~1000x slower: its lane passes an absolute case count instead of a scale
-        let n = if cfg!(miri) { args.get_u64("miri-cases", 16) } else { args.n(600_000, 20_000_000) };
+        let n = if cfg!(miri) { args.get_u64("miri-cases", 16) } else { args.n(600_000, 12_000_000) };
         par_cases(&mut r, &args, n, |i, r| vt_case(r, seed, i));
     }
 
